@@ -16,10 +16,10 @@ cp $DEMO $WT/$PKG/zz_verif_demo_test.go
 ( cd $WT && go test -vet=off -count=1 -run 'Test' ./$PKG/ >/tmp/seed-$SID-base.log 2>&1 ); BASE=$?
 # the demo alone on base: run only demo tests by listing their names
 NAMES=$(grep -ho 'func Test[A-Za-z0-9_]*' $DEMO | sed 's/func //' | paste -sd'|')
-( cd $WT && go test -vet=off -count=1 -run "^($NAMES)\$" ./$PKG/ >/tmp/seed-$SID-demo-base.log 2>&1 ); DBASE=$?
+( cd $WT && go test -tags "${DEMO_TAGS:-}" -vet=off -count=1 -run "^($NAMES)\$" ./$PKG/ >/tmp/seed-$SID-demo-base.log 2>&1 ); DBASE=$?
 ( cd $WT && git apply $DST/patch.diff ) || { echo "patch does not apply"; git -C /repo worktree remove --force $WT; exit 2; }
 ( cd $WT && go build ./... ) || { echo "does not build"; }
-( cd $WT && go test -vet=off -count=1 -run "^($NAMES)\$" ./$PKG/ >/tmp/seed-$SID-demo-mut.log 2>&1 ); DMUT=$?
+( cd $WT && go test -tags "${DEMO_TAGS:-}" -vet=off -count=1 -run "^($NAMES)\$" ./$PKG/ >/tmp/seed-$SID-demo-mut.log 2>&1 ); DMUT=$?
 rm $WT/$PKG/zz_verif_demo_test.go
 ( cd $WT && go test -vet=off -count=1 ./... 2>&1 | grep -v MUTATION > /tmp/seed-$SID-suite.log ); 
 SUITE_FAILS=$(grep -E '^--- FAIL' /tmp/seed-$SID-suite.log | grep -v -E 'TestEOF|TestHasEOF|TestRead ' | wc -l)
